@@ -56,10 +56,17 @@ class Pool:
 
     def __init__(self, rng, root):
         self.items = {'p8': [], 'png': [], 'lua': []}
+        with open(os.path.join(root, 'helper_a.lua'), 'wb') as fh:
+            fh.write(b'helper_a=1\n')
         for i in range(4):
-            regions, _ = carts.random_regions(rng, 'uniform')
+            # (the second source holds what PICO-8 leaves in barely used carts: default pattern rows between used ones)
+            regions, _ = carts.random_regions(rng, 'defaultish' if i == 1 else 'uniform')
             regions['music'] = rc.music_mask(regions['music'])
             code = carts.varied_lua(rng, rng.choice((30, 200, 900)))
+            if i == 2:
+                # a cart that `p8tool build` itself could have produced from a program with packages: its code calls require();
+                # as a source cart its code is copied like any other (the file it names exists here, the one below does not)
+                code = b'local m=require("helper_a")\n' + code
             p = os.path.join(root, '%s-s%d.p8' % (carts.cart_basename(i * 3 + rng.randrange(3)), i))
             trim, omit = (), ()
             if i >= 2:
@@ -82,6 +89,8 @@ class Pool:
             regions, _ = carts.random_regions(rng, 'uniform')
             regions['music'] = rc.music_mask(regions['music'])
             code = carts.varied_lua(rng, rng.choice((30, 200, 900)))
+            if i == 2:
+                code = b'tools=require("not_there")\n' + code
             area = rc.raw_code_area(code) if i % 2 else rc.code_area_from_items(rc.c_greedy(code), len(code))
             p = os.path.join(root, '%s-s%d.p8.png' % (carts.cart_basename(i * 3 + 1 + rng.randrange(3)), i))
             rows = [bytearray(carts.random_bytes(rng, rc.CART_W * 4)) for _ in range(rc.CART_H)]
@@ -122,7 +131,7 @@ def code_equal(got, want):
 
 def write_out_state(rng, state, path_base):
     """-> (path or None, previous contents dict or None)"""
-    regions, _ = carts.random_regions(rng, 'uniform')
+    regions, _ = carts.random_regions(rng, rng.choice(('uniform', 'uniform', 'defaultish')))
     regions['music'] = rc.music_mask(regions['music'])
     code = carts.varied_lua(rng, rng.choice((0, 40, 400)))
     return regions, code
